@@ -1122,7 +1122,6 @@ func ruleC10Records(w *World, r *Report) {
 	}
 }
 
-
 func ctxRoots(w *World) map[*ssa.Function][]*goRoot {
 	var roots []*goRoot
 	for _, rt := range w.goroutineRoots() {
